@@ -126,9 +126,10 @@ func VF_C17_L1_HTTP() {
 	// play the services: every answer may carry a meta object with a
 	// symbolic status and headers that try to replace protected ones
 	reqsAtDirect := 0
-	errCode := ""   // the first service error answered (decides the status)
+	errCode := "" // the first service error answered (decides the status)
 	trigger := zzvf.ParamOr("trigger", 0) == 1
-	direct := false // a direct-response status has ended the request
+	var metaCookies []string // Set-Cookie values supplied by the metas answered so far
+	direct := false         // a direct-response status has ended the request
 	var directStatus int
 	for step := 0; step < 8; step++ {
 		pend := w.mq.pending()
@@ -167,6 +168,7 @@ func VF_C17_L1_HTTP() {
 			zzvf.Tag("meta-status")
 		}
 		var payload []byte
+		kind := q.subject[:strings.IndexByte(q.subject, '.')]
 		build := func(inner string) []byte {
 			if !withMeta {
 				return []byte(`{` + inner + `}`)
@@ -174,7 +176,8 @@ func VF_C17_L1_HTTP() {
 			p := vfJSON(struct {
 				Status int                 `json:"status"`
 				Header map[string][]string `json:"header"`
-			}{st, map[string][]string{"content-type": {"text/evil"}, "Access-Control-Allow-Origin": {"*"}, "set-cookie": {"a=1"}, "X-Svc": {"1"}}})
+			}{st, map[string][]string{"content-type": {"text/evil"}, "Access-Control-Allow-Origin": {"*"}, "set-cookie": {kind + "=1"}, "X-Svc": {"1"}}})
+			metaCookies = append(metaCookies, kind+"=1")
 			return append(append([]byte(`{`+inner+`,"meta":`), p...), '}')
 		}
 		switch {
@@ -218,6 +221,20 @@ func VF_C17_L1_HTTP() {
 		zzvf.Assert(len(w.mq.reqs) == responded, "no-service-request-after-the-http-response")
 	}
 	zzvf.Assert(vfQuiescent(w), "run-reaches-quiescence")
+	// Set-Cookie values of every meta accumulate, also when a later
+	// answer is an error
+	for _, ck := range metaCookies {
+		found := false
+		for _, v := range rec.hdr["Set-Cookie"] {
+			if v == ck {
+				found = true
+			}
+		}
+		if !found {
+			zzvf.Note("Set-Cookie " + ck + " of an answered meta is missing in the response")
+		}
+		zzvf.Assert(found, "set-cookie-values-of-all-metas-accumulate")
+	}
 	if errCode != "" && !direct {
 		want := map[string]int{"system.notFound": 404, "system.methodNotFound": 404, "system.accessDenied": 401, "system.timeout": 404, "system.internalError": 500, "system.invalidParams": 400}[errCode]
 		zzvf.Reach("c17l1-error")
